@@ -101,9 +101,9 @@ class C08(Prop):
     def finding_key(self, case, clause, detail):
         if clause == 'estimate-returns-model':
             return 'bounded:estimate-returns-model:%s:%s' % (case['engine'], 'empty-measurements' if not case['ms'] else 'measurements')
-        if (detail or {}).get('max_abs_potential', 0) >= 1e15:
-            # float cancellation regime of belief propagation (potentials beyond 1/eps): keyed separately, still a violation
-            return 'bounded:%s:potentials>=1e15' % clause
+        if (detail or {}).get('max_abs_potential', 0) >= 1e7:
+            # float cancellation regime of belief propagation (relative normalisation error ~ eps * max|potential|): keyed separately, still a violation
+            return 'bounded:%s:potentials>=1e7' % clause
         return 'bounded:%s' % clause
 
     # ------------------------------------------------------------------ driver
